@@ -411,6 +411,7 @@ func (r *qrunner) phase(dir string, depth int, m *qmodel, recovered *qimage, lab
 			case idx == -1 && mayAppend != nil && bytes.Equal(mayAppend.data, b):
 				run.Probe("inflight-append-survived")
 				maybeApp = nil
+				m.written += int64(len(mayAppend.data)) + 8 // it occupies the segment like any accepted block
 				m.all = append(m.all, *mayAppend)
 				m.head = len(m.all) - 1
 				newHead = len(m.all)
@@ -518,7 +519,11 @@ func (r *qrunner) phase(dir string, depth int, m *qmodel, recovered *qimage, lab
 				run.Probe("append-accepted")
 			case errors.Is(err, hh.ErrQueueFull):
 				// legal only if the size limit can be the reason: even everything ever appended plus footers would exceed it
-				if int64(8*(q.SegmentCount()+1))+m.written+int64(len(b.data))+8 <= r.p.MaxSize {
+				slack := int64(0)
+				if maybeApp != nil {
+					slack = int64(len(maybeApp.data)) + 8
+				}
+				if int64(8*(q.SegmentCount()+1))+m.written+slack+int64(len(b.data))+8 <= r.p.MaxSize {
 					fail("append-refused-without-reason", "", "%s op%d: ErrQueueFull although everything ever appended (%d bytes) plus this block (%d) fits max size %d", label, i, m.written, len(b.data), r.p.MaxSize)
 				}
 				run.Probe("append-refused-size-limit")
